@@ -859,18 +859,17 @@ Proof.
   apply resolve_under; assumption.
 Qed.
 
-(* As the code is (no validation): NOT confined — a relative path with ".." and an absolute path both leave the
-   root.  Witnesses: root /srv/root, repo_path "../x" -> /srv/x ; repo_path "/etc/x" -> /etc/x. *)
-Theorem grpc_confined_refuted :
-  exists root rp1 d1 rp2 d2, absolute root
-    /\ grpc_access false root rp1 = Some d1 /\ ~ under root d1
-    /\ grpc_access false root rp2 = Some d2 /\ ~ under root d2.
-Proof.
-  exists f4_root, [46; 46; 47; 120], [47; 115; 114; 118; 47; 120], [47; 101; 116; 99; 47; 120], [47; 101; 116; 99; 47; 120].
-  split; [exists [115; 114; 118; 47; 114; 111; 111; 116]; reflexivity|].
-  repeat split; try (vm_compute; reflexivity);
-    intros H; apply under_b_spec in H; vm_compute in H; discriminate H.
-Qed.
+(* the service as repaired in a6f850d is the guarded variant *)
+Definition grpc_confined := grpc_confined_guarded.
+
+(* regression (was grpc_confined_refuted): without the validation a relative path with ".." and an absolute path leave the
+   root — root /srv/root, repo_path "../x" -> /srv/x ; repo_path "/etc/x" -> /etc/x *)
+Example grpc_unvalidated_regression :
+  grpc_access false f4_root [46; 46; 47; 120] = Some [47; 115; 114; 118; 47; 120]
+  /\ under_b f4_root [47; 115; 114; 118; 47; 120] = false
+  /\ grpc_access false f4_root [47; 101; 116; 99; 47; 120] = Some [47; 101; 116; 99; 47; 120]
+  /\ under_b f4_root [47; 101; 116; 99; 47; 120] = false.
+Proof. vm_compute. repeat split. Qed.
 
 Example grpc_witnesses_guarded :
   grpc_access true f4_root [46; 46; 47; 120] = None /\ grpc_access true f4_root [47; 101; 116; 99; 47; 120] = None
